@@ -22,6 +22,7 @@ type Task struct {
 	What    string
 	Steps   int
 	Locks   int
+	LockTouched bool // acquired or released a simulator-tracked lock since the last shared-state check
 	Panic   any
 	PanicStack string
 	Site    int // last yield site (pkg<<20|site), 0 = a seam outside generated code
@@ -147,15 +148,23 @@ func (s *Sched) Install() {
 		}
 	}
 	hook.BlockFn = func(what string, ready func() bool) { s.Block(what, ready) }
+	hook.SeamFn = func(what string) {
+		if s.Cur != nil {
+			s.Probes["pool_seam"]++
+			s.Yield(what)
+		}
+	}
+	hook.ResetPools()
 	hook.LockEvent = func(d int) {
 		if t := s.Cur; t != nil {
 			t.Locks += d
+			t.LockTouched = true
 		}
 	}
 }
 
 func Uninstall() {
-	hook.YieldFn, hook.BlockFn, hook.LockEvent = nil, nil, nil
+	hook.YieldFn, hook.BlockFn, hook.LockEvent, hook.SeamFn = nil, nil, nil, nil
 }
 
 // Run drives the tasks until all are done.
